@@ -3,7 +3,7 @@ use vstd::prelude::*;
 use std::ops;
 use std::fmt::Debug;
 use vstd::std_specs::cmp::PartialEqSpec;
-use vstd::std_specs::ops::{AddSpec, MulSpec};
+use vstd::std_specs::ops::{AddSpec, MulSpec, AddSpecImpl, MulSpecImpl};
 verus! {
 //%% include prelude/env.rs
 //%% include prelude/ddnnfptr.rs
@@ -23,5 +23,6 @@ impl VarLabel {
 //%% include inc/fold.rs
 //%% include prelude/csr.rs
 //%% include prelude/wmcthm.rs
+//%% include inc/boolsr.rs
 } // verus!
 fn main() {}
